@@ -294,10 +294,11 @@ def shard_measure_pipeline(shard):
     for n in (1, 2, 3):
         for bells in itertools.product(BELLS, repeat=n):
             for expect in (True, False):
-                for raws in itertools.product((0, 1), repeat=n):
+                for raws, fmt in itertools.product(itertools.product((0, 1), repeat=n), ("native", "qlink_1_0")):
                     part["evals"] += 1
                     part["distinct"] += 1
-                    case = {"variant": "recv_measure", "number": n, "bell_states": list(bells), "raw": list(raws), "expect_phi_plus": expect}
+                    case = {"variant": "recv_measure", "number": n, "bell_states": list(bells), "raw": list(raws), "expect_phi_plus": expect,
+                            "format": fmt}
                     ctrl, conn, epr, link = make_world("generic", "native", bells)
                     queue = list(range(n))
 
@@ -305,6 +306,13 @@ def shard_measure_pipeline(shard):
                         if not queue:
                             raise simctl.Blocked("nothing left")
                         p = queue.pop(0)
+                        if fmt == "qlink_1_0":
+                            # qlink-interface 1.0 objects (Bell states and bases named, never numbered: the two numberings differ)
+                            import qlink_interface as ql
+                            ctrl.executor._handle_epr_response(ql.ResMeasureDirectly(
+                                create_id=0, measurement_outcome=raws[p], measurement_basis=ql.MeasurementBasis.Z, directionality_flag=1,
+                                sequence_number=p, purpose_id=0, remote_node_id=1, goodness=1, bell_state=ql.BellState[bells[p]]))
+                            return
                         ctrl.executor._handle_epr_response(LinkLayerOKTypeM(
                             type=ReturnType.OK_M, create_id=0, measurement_outcome=raws[p], measurement_basis=0, directionality_flag=1,
                             sequence_number=p, purpose_id=0, remote_node_id=1, goodness=1, bell_state=BellState[bells[p]]))
@@ -314,12 +322,12 @@ def shard_measure_pipeline(shard):
                         conn.flush()
                         outs = [r.measurement_outcome for r in res]
                     except Exception as exc:
-                        add_violation(part, "raises/generic/recv_measure", f"{type(exc).__name__}: {str(exc)[:120]}", case)
+                        add_violation(part, f"raises/generic/recv_measure/{fmt}", f"{type(exc).__name__}: {str(exc)[:120]}", case)
                         continue
                     for p in range(n):
                         flip = expect and bells[p] in ("PSI_PLUS", "PSI_MINUS")     # Z basis: X-type errors flip the outcome
                         if outs[p] != (raws[p] ^ 1 if flip else raws[p]):
-                            add_violation(part, f"measure-pipeline/{'expect' if expect else 'no-correction'}",
+                            add_violation(part, f"measure-pipeline/{'expect' if expect else 'no-correction'}/{fmt}",
                                           f"pair {p} (delivered {bells[p]}, raw {raws[p]}): post-processed outcome {outs[p]}", case)
                             break
                     else:
